@@ -1689,12 +1689,15 @@ func (ex *Exec) convert(x Value, from, to types.Type) Value {
 				if fs {
 					return st.SExt(t, tw)
 				}
-				return st.ZExt(t, tw)
+				return ex.zextNoWrap(t, tw)
 			case fint && isFloat(to):
 				t := x.(*Term)
 				var r *Term
 				if fs {
 					r = st.FFromS(t)
+				} else if y := ex.zextNoWrap(t, 64); fw <= 32 && y.Op != OZExt && y.Op != OConst {
+					// the unsigned value, as exact 64-bit integer arithmetic (see zextNoWrap)
+					r = st.mkIntFloat(y, fw+1)
 				} else {
 					r = st.FFromU(t)
 				}
@@ -1884,4 +1887,74 @@ func (ex *Exec) typeAssert(fr *Frame, in *ssa.TypeAssert) Value {
 		ex.end("panic", "%s: interface conversion: %v is not %s", site, iv.t, in.AssertedType)
 	}
 	return res
+}
+
+// zextNoWrap zero-extends t to tw bits.  Where the interval domain (path-condition facts only)
+// shows that the narrow arithmetic lost nothing, the extension is replaced by the same arithmetic
+// on sign-extended leaves, so that "int32(byte(v+139)) - 139" becomes the sign extension of v and
+// cancels in the simplifier instead of reaching the bit-blaster.
+func (ex *Exec) zextNoWrap(t *Term, tw int) *Term {
+	st := ex.st
+	if ex.spec > 0 || t.S.W >= 63 || tw > 64 || (t.Op != OAdd && t.Op != OSub) {
+		return st.ZExt(t, tw)
+	}
+	for _, constSigned := range []bool{false, true} {
+		n := 0
+		if y := ex.widen(t, tw, constSigned, &n); y != nil && n > 0 {
+			if r := ex.rangeOf(y); r.sOK && r.slo >= 0 && r.shi < int64(1)<<uint(t.S.W) {
+				return y
+			}
+		}
+	}
+	return st.ZExt(t, tw)
+}
+
+// widen returns a tw-bit term whose low t.S.W bits equal t, built from the sign-extended leaves of
+// the additions/subtractions t consists of; nil when t has another shape.  n counts the leaves.
+func (ex *Exec) widen(t *Term, tw int, constSigned bool, n *int) *Term {
+	st := ex.st
+	if *n > 64 {
+		return nil
+	}
+	switch t.Op {
+	case OConst:
+		if constSigned {
+			return st.BVs(tw, sx(t.C, t.S.W))
+		}
+		return st.BV(tw, t.C)
+	case OExtract:
+		if t.Q != 0 {
+			return nil
+		}
+		*n++
+		y := t.A[0]
+		if y.S.W >= tw {
+			return st.Extract(y, tw-1, 0)
+		}
+		return st.SExt(y, tw)
+	case OAdd, OSub:
+		a := ex.widen(t.A[0], tw, constSigned, n)
+		if a == nil {
+			return nil
+		}
+		b := ex.widen(t.A[1], tw, constSigned, n)
+		if b == nil {
+			return nil
+		}
+		return st.Bin(t.Op, a, b)
+	case OMul:
+		for k := 0; k < 2; k++ {
+			if c := t.A[k]; c.Op == OConst {
+				if a := ex.widen(t.A[1-k], tw, constSigned, n); a != nil {
+					return st.Bin(OMul, a, st.BVs(tw, sx(c.C, c.S.W)))
+				}
+				return nil
+			}
+		}
+	case OSExt:
+		*n++
+		return st.SExt(t.A[0], tw)
+	}
+	*n++
+	return st.SExt(t, tw)
 }
